@@ -1463,7 +1463,7 @@ def inject_id_state(run):
         e = etree.SubElement(ext, "{http://schemas.openxmlformats.org/drawingml/2006/main}ext")
         e.set("uri", "{verif}")
         x = etree.SubElement(e, "{urn:verif}thing")
-        x.set("id", "{ABC-123}")
+        x.set("id", r.choice(["{ABC-123}", "\u00b2", "x\u00b3", "\u2460"]))  # ('²'.isdigit() is True and int('²') raises: vendor data may carry any id)
     if kind in ("slideids", "mixed"):
         lst = prs.part._element.find("{%s}sldIdLst" % P)
         if lst is not None and len(lst):
